@@ -114,6 +114,9 @@ def run_keys(shard, mon, S):
     idx = lookup.by_key()
     keys = sorted(idx)[shard["part"] :: shard["parts"]]
     rng = env.rng("C12", shard.get("config", "tree"), shard["part"])
+    _same_length: dict = {}
+    for c_, sp_ in sorted(table.items()):
+        _same_length.setdefault(sp_["bban_length"], []).append(c_)
     for cc, code in keys:
         entries = idx[(cc, code)]
         want = lookup.candidates(entries)
@@ -179,6 +182,32 @@ def run_keys(shard, mon, S):
         if ib.bban.bank != bank or ib.bban.bic != bic:
             mon.viol("iban_and_bban_lookup_differ", {**w, "iban": text}, repr(bank)[:100], repr(ib.bban.bank)[:100])
         mon.tally("ibans_checked")
+        # the same BBAN text read under another country: look-ups must follow *that* country's key
+        if len(keys) < 400 or hash((cc, code)) % 8 == 0:
+            bban = text[4:]
+            others = [o for o in _same_length.get(len(bban), []) if o != cc and R.matches_spec(table[o]["bban_spec"], bban)]
+            for other in others[:2]:
+                ospec = table[other]
+                opos = data.positions(ospec)
+                ocomps = data.lookup_components(ospec)
+                if not all(c in opos for c in ocomps):
+                    continue
+                okey = "".join(bban[opos[c][0] : opos[c][1]] for c in ocomps)
+                oent = idx.get((other, okey))
+                ot = R.make_iban(other, bban)
+                oo = observe(lambda: (lambda i: (i.bank, i.bic, i.bank_name))(S.IBAN(ot)))
+                if not oo.ok:
+                    mon.viol("cross_country_lookup_raised", {"iban": ot, "after": text}, "bank or None", oo.brief())
+                    continue
+                want_bank = oent[0] if oent else None
+                if oo.value[0] != want_bank:
+                    mon.viol("same_bban_text_under_other_country_gets_wrong_bank", {"iban": ot, "looked_up_before": text}, want_bank, oo.value[0])
+                want_c = lookup.candidates(oent) if oent else []
+                if oo.value[1] is None and want_c:
+                    mon.viol("same_bban_text_under_other_country_gets_wrong_bic", {"iban": ot, "looked_up_before": text}, want_c, None)
+                elif oo.value[1] is not None and not lookup.selection_ok(str(oo.value[1]), want_c):
+                    mon.viol("same_bban_text_under_other_country_gets_wrong_bic", {"iban": ot, "looked_up_before": text}, want_c, str(oo.value[1]))
+                mon.tally("cross_country_probes")
     mon.sample({"key": list(keys[0]) if keys else None, "candidates": lookup.candidates(idx[keys[0]]) if keys else None})
 
 
